@@ -8,7 +8,7 @@ namespace Babylon.Exec
 open Babylon.Core
 
 /-- closing tactic for the place goals -/
-macro "p_close" : tactic => `(tactic| (
+macro "p_close_X" : tactic => `(tactic| (
   (try simp only [exec_proj, upd_same, Q.claim_fold, Q.bump_fold] at *)
   first
     | done
@@ -75,20 +75,20 @@ theorem Inv3.step_x1 (I : Inv1 c s) (J : Inv2 c s) (K : Inv3 c s) (X : Inv3X s) 
     have hc3 : i0 < (s.l k0).cells.length := Q.stAt_some_lt _ _ _ hc2
     rw [hidx] at hc1; rw [hfull] at hc2
     clear hcell l4
-    cases ctx <;> simp only [hidx] at * <;> p_close
+    cases ctx <;> simp only [hidx] at * <;> p_close_X
   case wRecv i0 cl hpc hcell hfull =>
     have hc1 := Q.itemAt_eq _ _ _ hcell
     have hc2 := Q.stAt_eq _ _ _ hcell
     have hc3 : i0 < s.g.cells.length := Q.stAt_some_lt _ _ _ hc2
     rw [hfull] at hc2
     clear hcell l4
-    cases hx : cl.item <;> simp only [hx] at * <;> p_close
+    cases hx : cl.item <;> simp only [hx] at * <;> p_close_X
   case gPublish p k hpc hfree hst =>
     have hc3 : p < s.g.cells.length := Q.stAt_some_lt _ _ _ hst
-    clear l4; p_close
+    clear l4; p_close_X
   case rLPub id0 cid p k0 hpc hown hfree hst =>
     have hc3 : p < (s.l k0).cells.length := Q.stAt_some_lt _ _ _ hst
-    clear l4; p_close
+    clear l4; p_close_X
   case gTakeTask id0 k hpc =>
     clear l4
     dsimp only at hpu ⊢
@@ -118,8 +118,7 @@ theorem Inv3.step_x1 (I : Inv1 c s) (J : Inv2 c s) (K : Inv3 c s) (X : Inv3X s) 
       by_cases hid : id = id0
       · left; simp [upd, hid]
       · simpa [upd, hid] using h3
-  all_goals (clear l4; try p_close)
-  all_goals (trace_state; sorry)
+  all_goals (clear l4; try p_close_X)
 
 set_option maxHeartbeats 4000000 in
 theorem Inv3.step_x2 (I : Inv1 c s) (J : Inv2 c s) (K : Inv3 c s) (X : Inv3X s) (h : StepCase c s t lb s') :
@@ -173,20 +172,20 @@ theorem Inv3.step_x2 (I : Inv1 c s) (J : Inv2 c s) (K : Inv3 c s) (X : Inv3X s) 
     have hc3 : i0 < (s.l k0).cells.length := Q.stAt_some_lt _ _ _ hc2
     rw [hidx] at hc1; rw [hfull] at hc2
     clear hcell l4
-    cases ctx <;> simp only [hidx] at * <;> p_close
+    cases ctx <;> simp only [hidx] at * <;> p_close_X
   case wRecv i0 cl hpc hcell hfull =>
     have hc1 := Q.itemAt_eq _ _ _ hcell
     have hc2 := Q.stAt_eq _ _ _ hcell
     have hc3 : i0 < s.g.cells.length := Q.stAt_some_lt _ _ _ hc2
     rw [hfull] at hc2
     clear hcell l4
-    cases hx : cl.item <;> simp only [hx] at * <;> p_close
+    cases hx : cl.item <;> simp only [hx] at * <;> p_close_X
   case gPublish p k hpc hfree hst =>
     have hc3 : p < s.g.cells.length := Q.stAt_some_lt _ _ _ hst
-    clear l4; p_close
+    clear l4; p_close_X
   case rLPub id0 cid p k0 hpc hown hfree hst =>
     have hc3 : p < (s.l k0).cells.length := Q.stAt_some_lt _ _ _ hst
-    clear l4; p_close
+    clear l4; p_close_X
   case gTakeTask id0 k hpc =>
     clear l4
     dsimp only at h1 h2
@@ -220,8 +219,7 @@ theorem Inv3.step_x2 (I : Inv1 c s) (J : Inv2 c s) (K : Inv3 c s) (X : Inv3X s) 
     · have h1' : (s.pc t1).pushed = some id := by simpa [upd, ha] using h1
       have h2' : (s.pc t2).pushed = some id := by simpa [upd, hb] using h2
       exact x2 t1 t2 id h1' h2'
-  all_goals (clear l4; try p_close)
-  all_goals (trace_state; sorry)
+  all_goals (clear l4; try p_close_X)
 
 set_option maxHeartbeats 4000000 in
 theorem Inv3.step_f2 (I : Inv1 c s) (J : Inv2 c s) (K : Inv3 c s) (X : Inv3X s) (h : StepCase c s t lb s') :
@@ -271,22 +269,21 @@ theorem Inv3.step_f2 (I : Inv1 c s) (J : Inv2 c s) (K : Inv3 c s) (X : Inv3X s) 
     have hc3 : i0 < (s.l k0).cells.length := Q.stAt_some_lt _ _ _ hc2
     rw [hidx] at hc1; rw [hfull] at hc2
     clear hcell l4
-    cases ctx <;> simp only [hidx] at * <;> p_close
+    cases ctx <;> simp only [hidx] at * <;> p_close_X
   case wRecv i0 cl hpc hcell hfull =>
     have hc1 := Q.itemAt_eq _ _ _ hcell
     have hc2 := Q.stAt_eq _ _ _ hcell
     have hc3 : i0 < s.g.cells.length := Q.stAt_some_lt _ _ _ hc2
     rw [hfull] at hc2
     clear hcell l4
-    cases hx : cl.item <;> simp only [hx] at * <;> p_close
+    cases hx : cl.item <;> simp only [hx] at * <;> p_close_X
   case gPublish p k hpc hfree hst =>
     have hc3 : p < s.g.cells.length := Q.stAt_some_lt _ _ _ hst
-    clear l4; p_close
+    clear l4; p_close_X
   case rLPub id0 cid p k0 hpc hown hfree hst =>
     have hc3 : p < (s.l k0).cells.length := Q.stAt_some_lt _ _ _ hst
-    clear l4; p_close
-  all_goals (clear l4; try p_close)
-  all_goals (trace_state; sorry)
+    clear l4; p_close_X
+  all_goals (clear l4; try p_close_X)
 
 set_option maxHeartbeats 4000000 in
 theorem Inv3.step_v2 (I : Inv1 c s) (J : Inv2 c s) (K : Inv3 c s) (X : Inv3X s) (h : StepCase c s t lb s') :
@@ -343,22 +340,21 @@ theorem Inv3.step_v2 (I : Inv1 c s) (J : Inv2 c s) (K : Inv3 c s) (X : Inv3X s) 
     have hc3 : i0 < (s.l k0).cells.length := Q.stAt_some_lt _ _ _ hc2
     rw [hidx] at hc1; rw [hfull] at hc2
     clear hcell l4
-    cases ctx <;> simp only [hidx] at * <;> p_close
+    cases ctx <;> simp only [hidx] at * <;> p_close_X
   case wRecv i0 cl hpc hcell hfull =>
     have hc1 := Q.itemAt_eq _ _ _ hcell
     have hc2 := Q.stAt_eq _ _ _ hcell
     have hc3 : i0 < s.g.cells.length := Q.stAt_some_lt _ _ _ hc2
     rw [hfull] at hc2
     clear hcell l4
-    cases hx : cl.item <;> simp only [hx] at * <;> p_close
+    cases hx : cl.item <;> simp only [hx] at * <;> p_close_X
   case gPublish p k hpc hfree hst =>
     have hc3 : p < s.g.cells.length := Q.stAt_some_lt _ _ _ hst
-    clear l4; p_close
+    clear l4; p_close_X
   case rLPub id0 cid p k0 hpc hown hfree hst =>
     have hc3 : p < (s.l k0).cells.length := Q.stAt_some_lt _ _ _ hst
-    clear l4; p_close
-  all_goals (clear l4; try p_close)
-  all_goals (trace_state; sorry)
+    clear l4; p_close_X
+  all_goals (clear l4; try p_close_X)
 
 end
 end Babylon.Exec
